@@ -37,7 +37,7 @@ var (
 )
 
 func controlled(kind string) bool {
-	return strings.HasPrefix(kind, "atomic.") || kind == "time.Sleep/resume" || kind == "select" || kind == "wg.Wait/resume"
+	return strings.HasPrefix(kind, "atomic.") || strings.HasPrefix(kind, "shared:") || kind == "time.Sleep/resume" || kind == "select" || kind == "wg.Wait/resume"
 }
 
 func loadSchedule(trace []string) {
@@ -83,6 +83,10 @@ func ExpectThread(id int) {
 	expectIDs = append(expectIDs, id)
 	smu.Unlock()
 }
+
+// Visible marks an access to a shared object of the harness (e.g. a recording destination) as a
+// visible operation: gosym explores schedules around it, the native replay orders it.
+func Visible(name string) { Yield("shared:" + name) }
 
 // Yield is a scheduling point (a no-op unless a schedule is being replayed).
 func Yield(kind string) {
